@@ -3,23 +3,67 @@
    Float printing / parsing are external (Python repr / float): the theorems quantify over any pair fmt / parse with the
    contract  parse (fmt x) = Some x  and  fmt x is one blank-free token  (checked by the oracle on every case). *)
 From Cassis Require Import Base Offsets.
-From Cassis Require Import Heap Schema Canon Lex LexProofs Reach XmiDoc Xmi XmiProofs CorrC04 XmiExample.
+From Cassis Require Import Heap Schema Canon Lex LexProofs Reach ReachProofs ReachSpec XmiDoc Xmi XmiProofs XmiWf XmiDocOk CorrC04 XmiExample.
 Open Scope Z_scope.
 
-(* Faithful: for every schema and every CAS, if the writer succeeds and the CAS after the traversal is well-formed for the
-   structures that are written (wf_xmib: boolean, counted by the harness on every case), then the document, read by the
-   independent denotation of the XMI format, is exactly the canonical content of the CAS (types by namespace, every
-   feature value, element order of collections, offsets in code points, sofa data, view membership), up to ""/null inside
-   string arrays and lists. *)
+(* The premise of the document-level theorems is well-formedness of the INPUT CAS only (Xmi.wf_casb / wf_inb, boolean, counted
+   by the harness on every case): references are live and arrays have an `elements` list (Reach.wf_heapb), members are live,
+   explicit xmi:ids are pairwise distinct and below the id generator, no structure claims id 0, sofa ids are distinct, not 0
+   and not the id of a structure, view names are distinct, sofa texts are encodable and sofa arrays are primitive arrays, and
+   every object has slots of the kind its type declares (obj_inb: type name round-trips through the namespace mapping,
+   document names of features distinct, writer branch = format kind, annotations carry the sofa of a view of this CAS and
+   offsets inside its text, inline lists acyclic).  wf_inb adds: only subtypes of AnnotationBase have a feature `sofa`.
+   Nothing about the set of written structures is assumed: that every written structure has its id, that ids are pairwise
+   distinct and apart from sofa ids and 0, that the written set is closed under the writer's successor relation and that
+   references of written structures point to written structures is derived from the traversal (XmiWf.wf_written, from
+   ReachProofs.find_all_closed / find_all_each_once / find_all_contains_seeds / ids_assigned / find_all_exact). *)
+Theorem C04_written_set_from_traversal :
+  forall s c c' all, wf_casb s c = true -> written s c = Ok (c', all) -> wf_xmib s c' all = true.
+Proof. exact wf_written. Qed.
+Print Assumptions C04_written_set_from_traversal.
+
+(* Faithful: for every schema and every well-formed CAS, if the writer succeeds, then the document, read by the independent
+   denotation of the XMI format, is exactly the canonical content of the CAS (types by namespace, every feature value,
+   element order of collections, offsets in code points, sofa data, view membership), up to ""/null inside string arrays
+   and lists. *)
 Theorem C04_denote_save_xmi :
   forall (fmt : flt -> string) (parse : string -> option flt),
   (forall x, parse (fmt x) = Some x) -> (forall x, tok_ok (fmt x)) ->
   forall s c d c',
-  save_xmi fmt s c = Ok (d, c') ->
-  (forall all, written s c = Ok (c', all) -> wf_xmib s c' all = true) ->
+  wf_casb s c = true -> save_xmi fmt s c = Ok (d, c') ->
   denote_xmi parse s d = (do x <- canon_xmi s c ;; Ok (norm_xmi s x)).
-Proof. exact denote_save_xmi. Qed.
+Proof. exact denote_save_xmi_wf. Qed.
 Print Assumptions C04_denote_save_xmi.
+
+(* Closed (doc_refs_resolve): in the written document cas:NULL has id 0 and occurs once; the ids of cas:NULL, of the sofas
+   and of the feature structure elements are pairwise distinct; every reference, element token of an FSArray / FSList,
+   sofa attribute of an annotation names an element of the right kind; every View names a sofa, at most one View per
+   sofa; every member and every sofaArray names a feature structure element (XmiDoc.doc_ok_xmi). *)
+Theorem C04_doc_ok :
+  forall (fmt : flt -> string) (parse : string -> option flt),
+  (forall x, parse (fmt x) = Some x) -> (forall x, tok_ok (fmt x)) ->
+  forall s c d c',
+  wf_inb s c = true -> save_xmi fmt s c = Ok (d, c') -> doc_ok_xmi parse s d = true.
+Proof. exact doc_ok_save_xmi. Qed.
+Print Assumptions C04_doc_ok.
+
+(* Complete: the feature structure elements of the document are, in order, the structures `all` the writer collected
+   (ids pairwise distinct: each structure once); every structure reachable from an indexed one through any chain of the
+   declarative successor relation (references, TOP-ranged features, list head / tail, FSArray elements, inline FSArray
+   members, heads of inline FSList nodes) is among them, under the id it carries after the save; and nothing else is
+   written except the byte arrays holding sofa data. *)
+Theorem C04_complete :
+  forall (fmt : flt -> string) s c d c',
+  wf_casb s c = true -> save_xmi fmt s c = Ok (d, c') ->
+  exists all, written s c = Ok (c', all)
+    /\ mapM x_id (filter is_fs d) = Ok (map fst (sort_ids all))
+    /\ NoDup (map fst (sort_ids all)) /\ NoDup (map snd all)
+    /\ (forall i o, In (i, o) all -> has_id (c_heap c') o i)
+    /\ (forall o, reachable s (c_heap c) (member_seeds c) o -> In o (map snd all))
+    /\ (forall o, In o (map snd all) ->
+          reachable s (c_heap c) (member_seeds c) o \/ exists v, In v (c_views c) /\ s_arr (v_sofa v) = Some o).
+Proof. exact save_xmi_complete. Qed.
+Print Assumptions C04_complete.
 
 (* The same for any set of structures to be written: the writer's document for (c, all) denotes canon_of c all. *)
 Theorem C04_denote_written :
@@ -62,21 +106,12 @@ Theorem C04_doc_ids_distinct :
 Proof. exact doc_ids_distinct. Qed.
 Print Assumptions C04_doc_ids_distinct.
 
-(* NOT PROVED for all inputs (evaluated on every generated case instead, on the implementation's document —
-   check_doc_ok in CorrC04.v — and on the example below):
-     doc_refs_resolve / doc_ok_save_xmi:
-       save_xmi fmt s c = Ok (d, c') -> (forall all, written s c = Ok (c', all) -> wf_xmib s c' all = true) ->
-       doc_ok_xmi parse s d = true.
-   wf_xmib carries the set-level facts about `all` (ids distinct and apart from the sofa ids and 0, every reference /
-   element / member / sofa array is in `all`) as boolean premises; that they follow from the traversal is Reach's
-   find_all_each_once / find_all_closed (ReachProofs, other builder).  What is missing here is the bookkeeping that the
-   canonical content is total (canon_of = Ok under wf_xmib) and that the references it mentions are those ref_okb checked. *)
-
 (* non-vacuity: the example CAS (two views, astral text, cycle, inline FSArray with a null element, shared FSArray, empty
    inline StringList, referenced-only annotation, colliding package suffixes) satisfies the premises; the model writes the
    document cassis wrote; the document is closed and denotes the observed content *)
 Example C04_premises_hold :
-  (match written ex_schema ex_cas with Ok ca => wf_xmib ex_schema (fst ca) (snd ca) | _ => false end) = true
+  wf_inb ex_schema ex_cas = true
+  /\ (match written ex_schema ex_cas with Ok ca => wf_xmib ex_schema (fst ca) (snd ca) | _ => false end) = true
   /\ (match save_xmi (tab_fmt ex_ftab) ex_schema ex_cas with Ok (d, _) => xdoc_perm_eqb d ex_doc | _ => false end) = true
   /\ doc_ok_xmi (tab_parse ex_ftab) ex_schema ex_doc = true
   /\ (match denote_xmi (tab_parse ex_ftab) ex_schema ex_doc, canon_xmi ex_schema ex_cas with
